@@ -333,6 +333,17 @@ def _samples_check(cx, g, k, inverse, vshape):
             cx.fail("Samples.vector", "flags", "vector samples: is_vec=%s is_par=%s" % (Vs.is_vec, Vs.is_par))
         if vshape is not None:
             wantv = np.stack([np.asarray(g.fun2vec(f.copy())).reshape(vshape) for f in percol], axis=-1)
+            # the same conversion after the function-value samples went through a (trivial and a real) burn-in/thinning:
+            # the representation must survive the copy made there
+            for (nb, nt) in ((0, 1), (1, 2)):
+                okb, Vb = _call(res, lambda: Fs.burnthin(nb, nt).vector)
+                if okb:
+                    res.evaluations += 1
+                    wb = wantv[..., nb::nt]
+                    if np.asarray(Vb.samples).shape != wb.shape or not close(Vb.samples, wb, 1e-12):
+                        cx.fail("Samples.vector", "values-after-burnthin", "funvals.burnthin(%d,%d).vector differs from the "
+                                "per-sample fun2vec of the kept samples (shape %s, expected %s)" % (nb, nt, np.asarray(Vb.samples).shape, wb.shape))
+                        break
             if np.asarray(Vs.samples).shape != wantv.shape or not close(Vs.samples, wantv, 1e-12):
                 cx.fail("Samples.vector", "values", "Samples.vector differs from the per-sample fun2vec",
                         impl=np.asarray(Vs.samples), ref=wantv)
